@@ -75,7 +75,7 @@ def jobs(tier):
         out += expand(D, "Bsn", n0_op=[0, 1, 2]) + expand(D, "Bns", n0_op=[1])
         out += vv(D, "Bvv", [(1, 0), (2, 0), (0, 1), (3, 0), (4, 0), (5, 0)], ulist=2)
         out += vv(D, "Bvs", [(0, 0), (0, 1), (4, 0), (5, 0)], ulist=2, ulab=2)
-        out += vv(D, "Bsv", [(0, 0), (0, 2), (3, 0), (4, 0)], ulist=2, ulab=2)
+        out += vv(D, "Bsv", [(0, 0), (0, 2), (3, 0), (4, 0), (5, 0)], ulist=2, ulab=2)
         out += vv(D, "BsFs", [(0, 0), (0, 1), (3, 0)], ulist=2, ulab=2, n3_nm=0, n2_fn=[0, 1], n2_fnalt=0)
         out += vv(D, "BFss", [(0, 1)], ulist=2, ulab=2, n3_nm=0, n1_fn=2, n1_fnalt=0, n1_dst=[0, 2])
         out += expand(D, "BAvn", n0_op=1, n0_cmp=[1, 2], n1_aop=0, n1_aggop=[0, 7], ulist=1)
@@ -126,8 +126,16 @@ def jobs(tier):
 
 
 PROP = {
-    "level_text": "",
-    "level_note": "",
+    "level_text": "Bounded symbolic model checking of pint's real label-flow analyser (utils.walkNode / parseBinOps / canJoin / calculateStaticReturn / walkAggregation / parseAggregation / parseCall / parsePromQLFunc and the label-set helpers, executed from SSA) against an independent label-level PromQL evaluator: for every enumerated query shape with a binary expression at its root, every dead-code flag raised at the root is shown, for ALL databases of 2 metrics x <= 2 series over 3 labels in which every series carries every label, all regexp languages, literal values, metric choices and comparison outcomes, to imply that the flagged operation returns nothing (or, for the right side of or / unless, contributes nothing).",
+    "level_note": "Everything pint's code looks at (label lists, on/without flags, matcher label/type/emptiness, operator classes) is enumerated concretely inside one executor path; the reference runs once per operator-class assignment on a fully symbolic description and each claim is 'description = shape => claim', decided by z3. Messages and positions are cut (fmt.Sprintf, strings.Join, strconv.FormatFloat, FindPosition). The reference evaluator is hand-written from DESIGN.md App. B and was compared with the real promql engine on every counterexample class (tools/promql_replay); claims are made under 'Prometheus evaluates the query without error'. Flags of sub-expressions are the root flags of a smaller skeleton (its own job). Six genuine false-positive classes of the unchanged tree are guarded by signatures (notes/C12.md).",
     "runs": [{"pkg": "./internal/parser/utils", "harness": ["harness/C12/ref.go", "harness/C12/dead.go"], "intmode": True, "jobs": jobs}],
-    "bounds": {}, "assumptions": [], "outside": [],
+    "bounds": {"skeletons": SKELS, "skeleton notation": "prefix; s selector, n number, v vector(number), A aggregation, F function, B binary expression",
+               "label universe": "U = {a, b, c}; quick: label lists and matcher labels over {a, b}", "matchers per selector": "quick <= 1 (on one or both sides), thorough <= 2 on one side",
+               "database": "2 metrics x <= 2 series, every label present with a value in {v1, v2}", "regexps": "any language over {'', v1, v2}", "constants": "{0, 1, 2}",
+               "aggregations": "sum min max avg group stddev stdvar count quantile | topk bottomk | count_values", "functions": "abs ceil sort timestamp | rate max_over_time last_over_time delta | label_replace label_join",
+               "operators": "arithmetic (7), comparison (6) with and without bool, and, or, unless; one-to-one, group_left, group_right; on / ignoring with every label subset"},
+    "assumptions": ["every stored series of the metrics involved carries every label of U (the property's own precondition)", "Prometheus evaluates the query without an error (no duplicate match groups on a 'one' side, no many-to-many match, no duplicate result label sets)",
+                    "operands of the checked root operation have one result branch each (no `or` below the root)", "label lists are in universe order without repetitions", "topk/bottomk keep at least one series of a non-empty input"],
+    "outside": ["sample values other than constants built from vector(k) and number literals", "staleness, offsets, @ modifiers, histograms, experimental functions", "subqueries other than as the range argument of a range function",
+                "the promql/impossible check's own 20 lines (Source.WalkSources + checkSource: report iff IsDead)", "positions and message texts of the reports"],
 }
